@@ -6,5 +6,5 @@ S=/tmp/scratch/mut$$
 mkdir -p $S
 rsync -a --exclude .git /repo/ $S/repo/
 (cd $S/repo && patch -p1 -s < $P)
-/verif/bin/symgo -repo $S/repo "$@" || true
+${SYMGO:-/verif/bin/symgo} -repo $S/repo "$@" || true
 rm -rf $S
